@@ -190,6 +190,11 @@ func (c *FnCtx) exec(in ssa.Instruction) {
 		// values read from memory carry their type's range
 		if u, isUn := in.(*ssa.UnOp); isUn && u.Op.String() == "*" {
 			c.assume(c.typeFact(r.T, r.Ty))
+			if gl, isGl := u.X.(*ssa.Global); isGl && c.g.sentinelError(gl) {
+				// a package-level error value initialised once by errors.New / fmt.Errorf and never reassigned
+				c.assume(not(eq(r.T, "0")))
+				c.used["sentinel error variables (initialised by errors.New/fmt.Errorf in package init, never reassigned in their package) are non-nil"] = true
+			}
 		}
 		return
 	}
